@@ -314,16 +314,19 @@ def _hypothesis_shard(sub: Sub, shard: int, seed_base: int):
         return stats, [last["f"]]
     except Exception:
         if "f" in last:
-            # hypothesis wrapped it (e.g. flaky): re-establish outside hypothesis before reporting
+            # hypothesis wrapped it (e.g. flaky replay): a violation WAS observed in a real execution of this case.
+            # re-establish it outside hypothesis; if it does not reproduce from the case alone (it depended on process
+            # state left behind by earlier cases) it is still reported, and the message says so.
             f = last["f"]
             try:
                 reset_globals()
                 sub.check(f.case)
             except Violation as v:
                 return stats, [Failure(sub.name, v.sig, v.msg, f.case)]
-            except Discard:
+            except (Discard, Exception):  # noqa: BLE001
                 pass
-            raise
+            f.msg = "[observed once; did not reproduce from the case alone - depends on state left by earlier cases in the same process] " + f.msg
+            return stats, [f]
         raise
     return stats, []
 
@@ -485,9 +488,17 @@ def run_property(mod, tier: str) -> int:
     total = Stats()
     sub_cov: dict = {}
     exhaustive_all = True
+    harness_errors: list[str] = []
     for name, sub in checks.items():
         ts = time.time()
-        st, fails = run_sub(sub, SEED)
+        try:
+            st, fails = run_sub(sub, SEED)
+        except HarnessError as he:
+            # keep going: other sub-checks may still decide the property; a harness error alone is exit 2
+            harness_errors.append(f"sub-check {name}: {he}")
+            sub_cov[name] = {"kind": sub.kind, "harness_error": True, "wall_s": round(time.time() - ts, 2)}
+            exhaustive_all = False
+            continue
         sub_cov[name] = {
             "kind": sub.kind,
             "evaluations": st.evaluations,
@@ -547,7 +558,7 @@ def run_property(mod, tier: str) -> int:
         "wall_s": round(wall, 2),
         "violations": len(violations),
     }
-    write_evidence(prop, ev, strict=not violations)
+    write_evidence(prop, ev, strict=not violations and not harness_errors)
     for line in out_lines:
         print(line)
     sys.stdout.flush()
@@ -557,7 +568,14 @@ def run_property(mod, tier: str) -> int:
             print(f"VIOLATION property={prop} replay={path}")
             print(f"  signature={f.sig}")
             print(f"  {f.msg}")
+        for h in harness_errors:
+            print("NOTE: a sub-check also ended in a harness error (inconclusive):", h.splitlines()[0])
         return 1
+    if harness_errors:
+        print("HARNESS-ERROR (inconclusive, not a violation):")
+        for h in harness_errors:
+            print(h)
+        return 2
     print(
         f"OK property={prop} tier={tier} seed={SEED} evaluations={total.evaluations} "
         f"distinct_nontrivial={len(total.nontrivial)} discarded={total.discarded} wall={wall:.1f}s"
